@@ -513,6 +513,9 @@ func main() {
 		if f[0] == "stress" {
 			return stress(f)
 		}
+		if f[0] == "eng" {
+			return engCase(f)
+		}
 		return seq(f)
 	})
 }
